@@ -306,6 +306,19 @@ def tree_variants(line, rng, prop):
         # the first token's *encoded* text: only a walk that splits and decodes token by token tells them apart
         for conf in _confusable(doc, pb):
             q = list(parts); q[di] = conf[0]; q[pi] = "x" + conf[1].hex(); out.append(" ".join(q))
+        # a token spelled in a FOREIGN encoding of the member it would name (percent-encoding as in a URI fragment, a JSON string
+        # escape): RFC 6901 evaluation knows `~0` / `~1` only, so such a token names a member of exactly that spelling
+        toks_ = pb.split(b"/")[1:]
+        for j in sorted({0, len(toks_) - 1}) if toks_ else []:
+            t = toks_[j].replace(b"~1", b"/").replace(b"~0", b"~")
+            if not t or len(t) > 12: continue
+            try: tx = t.decode("utf-8")
+            except UnicodeDecodeError: continue
+            c0 = tx[0].encode("utf-8"); r0 = tx[1:].encode("utf-8")
+            for enc in (b"".join(b"%%%02X" % c for c in t), b"".join(b"%%%02x" % c for c in c0) + r0, (b"\\u%04x" % ord(tx[0]) if ord(tx[0]) < 0x10000 else c0) + r0):
+                enc = enc.replace(b"~", b"~0")
+                q = list(parts); q[pi] = "x" + (b"".join(b"/" + x for x in toks_[:j]) + b"/" + enc + b"".join(b"/" + x for x in toks_[j + 1:])).hex()
+                out.append(" ".join(q))
         # a long remainder to materialise / to fail on: > 64 tokens behind the original pointer
         q = list(parts); q[pi] = "x" + (pb + b"/a" * rng.choice([64, 65, 70, 129, 130]) + b"/b").hex(); out.append(" ".join(q))
         # three-digit indices (above 255) and a 20-digit overflow in the last position
@@ -358,7 +371,7 @@ def tree_variants(line, rng, prop):
         if steps:
             j = rng.randrange(len(steps)); f = steps[j].split("@")
             if len(f) >= 2 and f[1].startswith("x"):
-                pb = bytes.fromhex(f[1][1:]); tok = rng.choice([b"256", b"299", b"999"])
+                pb = bytes.fromhex(f[1][1:]); tok = rng.choice([b"256", b"299", b"999", b"~1", b"0~0", b"1~12"])
                 f[1] = "x" + ((pb[:pb.rfind(b"/")] if b"/" in pb else b"") + b"/" + tok).hex()
                 out.append(" ".join([op, backend, doc] + steps[:j] + ["@".join(f)] + steps[j + 1:]))
         for kind in hist_kinds:
